@@ -2980,8 +2980,12 @@ def run(chk):
             raise AnchorMissing("asyncio.gather(...) in AsyncIoAdapter.run")
         awl = ga0[0].args[0].value.id if ga0[0].args and isinstance(ga0[0].args[0], ast.Starred) and isinstance(ga0[0].args[0].value, ast.Name) else None
         aw = [n for n in ast.walk(AL_) if isinstance(n, ast.Call) and awl is not None and u(n.func) == f"{awl}.append"]
-        ok = len(exs) == 1 and len(aw) == 1 and not guards(exs[0], stop=AL_, path_sensitive=True) and not guards(aw[0], stop=AL_, path_sensitive=True) and not _has_jump(AL_)
-        chk.ob("O1.10", "one executor per allocation of the row, unconditionally", ok, AL_, f"executors={len(exs)} awaitables.append={len(aw)}")
+        if not aw:
+            # what is handed to gather() is not filled by `<list>.append(...)` inside the loop (another container idiom): located, but not judged in this syntactic form
+            chk.unknown("O1.10", "the coroutines handed to asyncio.gather(...) are not collected by <list>.append(...) in the loop over the adapter's allocations (shape not recognised)", ga0[0])
+        else:
+            ok = len(exs) == 1 and len(aw) == 1 and not guards(exs[0], stop=AL_, path_sensitive=True) and not guards(aw[0], stop=AL_, path_sensitive=True) and not _has_jump(AL_)
+            chk.ob("O1.10", "one executor per allocation of the row, unconditionally", ok, AL_, f"executors={len(exs)} awaitables.append={len(aw)}")
         tnames = [t.id for t in AL_.target.elts] if isinstance(AL_.target, ast.Tuple) and all(isinstance(t, ast.Name) for t in AL_.target.elts) else []
         if len(tnames) != 2:
             chk.unknown("O1.10", "the loop over the adapter's allocations does not unpack (client id, task allocation) (shape not recognised)", AL_)
@@ -3015,14 +3019,31 @@ def run(chk):
             sf_ = [n for n in ast.walk(AL_) if isinstance(n, ast.Call) and last_attr(n.func) == "schedule_for"]
             if not sf_:
                 raise AnchorMissing("schedule_for(...) in the loop over the adapter's allocations")
-            ok = len(sf_[0].args) >= 2 and u(sf_[0].args[0]) == tav and isinstance(sf_[0].args[1], ast.Subscript) and isinstance(sf_[0].args[1].value, ast.Name)
-            ppt = sf_[0].args[1].value.id if ok else None
-            chk.ob("O1.10", "schedule computed for this allocation with the task's (shared) parameter source", ok, sf_[0], "")
+            sfd = [f for f in drv.functions() if f.name == "schedule_for"]
+            sfb = source.bind_args(sf_[0], sfd[0], skip_self=False) if len(sfd) == 1 else {}
+            sfa = [sfb.get(p_) for p_ in params_of(sfd[0])] if len(sfd) == 1 else list(sf_[0].args)  # in the order of the parameters, whether passed by position or by keyword
             ps_ = [n for n in ast.walk(AL_) if isinstance(n, ast.Call) and last_attr(n.func) == "operation_parameters"]
-            ok = len(ps_) == 1 and ppt is not None and _pat.guarded(ps_[0], "E_k not in V_p", stop=AL_, binds={"p": ppt}) is not None
-            chk.ob("O1.10", "one parameter source per task (created on first sight only)", ok, ps_[0] if ps_ else AL_, "")
-        ok = len(ga0) == 1 and awl is not None and [u(x) for x in ga0[0].args] == [f"*{awl}"] and isinstance(source.parent(ga0[0]), ast.Await)
-        chk.ob("O1.10", "all executors of the row are awaited together", ok, ga0[0], "")
+            if len(sfa) < 2 or sfa[0] is None or sfa[1] is None or not ps_:
+                chk.unknown("O1.10", "the arguments of schedule_for(...) / the creation of the parameter source in the loop over the adapter's allocations (shape not recognised)", sf_[0])
+            else:
+                src_ = source.inline_node(sfa[1], {k: v for k, v in ldefs_.items() if isinstance(v, ast.Subscript)})
+                ok = u(sfa[0]) == tav and isinstance(src_, ast.Subscript) and isinstance(src_.value, ast.Name)
+                ppt = src_.value.id if ok else None
+                if not ok and u(sfa[0]) == tav:
+                    chk.unknown("O1.10", f"the parameter source handed to schedule_for(...) is `{u(sfa[1])}`, not an entry of a per-task map (shape not recognised)", sf_[0])
+                else:
+                    chk.ob("O1.10", "schedule computed for this allocation with the task's (shared) parameter source", ok, sf_[0], "")
+                if ppt is not None:
+                    ok = len(ps_) == 1 and _pat.guarded(ps_[0], "E_k not in V_p", stop=AL_, binds={"p": ppt}) is not None
+                    if not ok and len(ps_) == 1 and guards(ps_[0], stop=AL_, path_sensitive=True):
+                        chk.unknown("O1.10", f"the parameter source is created under `{u(guards(ps_[0], stop=AL_, path_sensitive=True)[-1][0])}`, not under `<task> not in {ppt}` (shape not recognised)", ps_[0])
+                    else:
+                        chk.ob("O1.10", "one parameter source per task (created on first sight only)", ok, ps_[0], "")
+        if awl is None and isinstance(source.parent(ga0[0]), ast.Await):
+            chk.unknown("O1.10", f"asyncio.gather({', '.join(u(x) for x in ga0[0].args)}) is not given one starred list (shape not recognised)", ga0[0])
+        else:
+            ok = len(ga0) == 1 and awl is not None and [u(x) for x in ga0[0].args] == [f"*{awl}"] and isinstance(source.parent(ga0[0]), ast.Await)
+            chk.ob("O1.10", "all executors of the row are awaited together", ok, ga0[0], "")
 
     # ---- O1.11 the named task is done when ALL its clients are done (F44) ---------------------------------------------------------------------------
     chk.rule("O1.11", "a client of the task named by completed-by sets the worker-wide complete event only under a condition that depends on the progress of the task's other clients: "
